@@ -556,7 +556,7 @@ func (ex *Exec) Run() {
 		ex.Steps++
 	}
 	for _, t := range ex.threads {
-		if !t.done && (t.op == OpLock || (t.op == OpWait && t.waiter == nil)) {
+		if !t.done && t.op == OpLock {
 			ex.Deadlocked = append(ex.Deadlocked, t.name)
 		}
 	}
